@@ -53,6 +53,17 @@ def _cases(tier, seed):
                 ss = dict(s)
                 ss['skind'] = sk
                 cs.append({'scen': 'op_preserve', 's': ss})
+    # complex operands and complex scalars
+    for st in ({'N': [2, 3], 'R': [1, 2, 1]}, {'N': [2, 2], 'M': [1, 2], 'R': [1, 2, 1]}):
+        for name in ('mul_scalar', 'rmul_scalar', 'add_scalar', 'sub_scalar', 'neg', 'conj', 'clone', 'add', 'mul', 'getitem_slices', 't', 'to_same'):
+            if name in ('add', 'mul', 't') and (('M' in st) != (name == 't')) and name != 'add' and name != 'mul':
+                continue
+            if name in ('add', 'mul') and 'M' in st:
+                continue
+            if name == 't' and 'M' not in st:
+                continue
+            for sk in (('complex', 'float') if name.endswith('_scalar') else ('float',)):
+                cs.append({'scen': 'op_preserve', 's': dict(st, op=name, dtype='complex128', skind=sk, R2=st['R'])})
     # second family: two-step histories with the documented in-place operations
     for op in VIEW_OPS:
         kinds, f = OPS[op]
